@@ -219,7 +219,7 @@ def gen_limits():
     out += ("Definition lit_render_ok (limit : option nat) (literals : list str) : bool :=\n"
             f"  match limit with None => true | Some limit => {render} end.\n")
     out += f"Definition DEFAULT_MAX_LITERALS : nat := {dml}.\n"
-    out += "Inductive framework := FBase | FPydantic | FSqlmodel | FAttrs | FDataclasses.\n"
+    out += "From J2M.Model Require Export Framework.\n"
     out += ("Definition use_literals (fw : framework) : bool :=\n  match fw with "
             f"FBase => {b(st_base['use_literals'])} | FPydantic => {b(st_pyd['use_literals'])} | FSqlmodel => {b(st_sql['use_literals'])}"
             f" | FAttrs => {b(st_attrs['use_literals'])} | FDataclasses => {b(st_dc['use_literals'])} end.\n")
@@ -229,8 +229,53 @@ def gen_limits():
     return out
 
 
+def gen_labels():
+    """models/base.py: blacklist ingredients, ones, METADATA_FIELD_NAME; the interpreter's keyword list / builtins as data"""
+    import builtins
+    import keyword
+    tree = parse("models/base.py")
+    want = {
+        "keywords_set": "set(keyword.kwlist)",
+        "builtins_set": "set(__builtins__.keys())",
+        "blacklist_words": "frozenset(keywords_set | builtins_set | other_common_names_set)",
+    }
+    found = {}
+    other = None
+    ones = None
+    meta_name = None
+    for n in tree.body:
+        if isinstance(n, ast.Assign) and len(n.targets) == 1 and isinstance(n.targets[0], ast.Name):
+            nm = n.targets[0].id
+            if nm in want:
+                found[nm] = ast.unparse(n.value)
+            elif nm == "other_common_names_set":
+                if not (isinstance(n.value, ast.Set) and all(isinstance(e, ast.Constant) and isinstance(e.value, str) for e in n.value.elts)):
+                    raise Unsupported("other_common_names_set is not a set of string literals")
+                other = sorted(e.value for e in n.value.elts)
+            elif nm == "ones":
+                if not (isinstance(n.value, ast.List) and all(isinstance(e, ast.Constant) and isinstance(e.value, str) for e in n.value.elts)):
+                    raise Unsupported("ones is not a list of string literals")
+                ones = [e.value for e in n.value.elts]
+            elif nm == "METADATA_FIELD_NAME":
+                if not (isinstance(n.value, ast.Constant) and isinstance(n.value.value, str)):
+                    raise Unsupported("METADATA_FIELD_NAME")
+                meta_name = n.value.value
+    for k, v in want.items():
+        if found.get(k) != v:
+            raise Unsupported(f"{k} = {found.get(k)!r}, expected {v!r}")
+    if other is None or ones is None or meta_name is None:
+        raise Unsupported("other_common_names_set / ones / METADATA_FIELD_NAME missing")
+    bl = sorted(set(keyword.kwlist) | set(builtins.__dict__.keys()) | set(other))
+    out = HEADER.format(src="models/base.py (+ keyword.kwlist and builtins of /venv/bin/python)")
+    out += "Definition blacklist : list str :=\n  [" + ";\n   ".join(coq_str(w) for w in bl) + "].\n"
+    out += "Definition ones : list str := [" + "; ".join(coq_str(w) for w in ones) + "].\n"
+    out += f"Definition METADATA_FIELD_NAME : str := {coq_str(meta_name)}.\n"
+    return out
+
+
 GENERATORS = {
     "Limits": gen_limits,
+    "Labels": gen_labels,
 }
 
 
